@@ -10,7 +10,7 @@ RULE = ("strings over {letters, { } \\ \" ' space tab CR LF non-ASCII incl. NBSP
         "(value tags, comments), and as the body of a {{{{raw}}}} block; thorough adds every string of length ≤ 5 over a "
         "9-symbol alphabet; text around comments and block tags (where only the standalone-line rule may remove whitespace next to the tag: every "
         "other character must come out, in order); the family of the Lean theorem C03.text_around_comment_is_kept (any text, any comment body, any text; "
-        "oracle = the theorem's closed form, exact); oracle = the string itself; non-trivial = contains a brace, backslash or whitespace; distinct by string")
+        "oracle = the theorem's closed form, exact); the family of C03.raw_block_body_is_verbatim (any text, a raw block with any body – tags, whitespace at both ends, line breaks –, any text; exact); about one case in eight read from a template FILE (with and without dev mode; a byte order mark / zero-width character in front in most of them); oracle = the string itself; non-trivial = contains a brace, backslash or whitespace; distinct by string")
 DEFINITE_FLOOR = 0.9
 ASSUMPTIONS = ["whitespace-only text next to a tag that C11's standalone rule names is placed only where that rule cannot fire (value tags)"]
 ALPHA = list("abXY{}{}\\\"' \t\r\n") + ["é", "→", "😀", "{{", "}}", "{{{", "\\\\", "\u00a0", "\u3000", "\x0b", "\x0c"]
@@ -55,7 +55,7 @@ def generate(rng, n, tier="quick"):
             s = texts.pop()
         else:
             s = rand_text(r, r.range(0, 14))
-        mode = r.weighted([("alone", 5), ("between", 4), ("raw", 3), ("comment", 2), ("around", 4), ("thm", 4)])
+        mode = r.weighted([("alone", 5), ("between", 4), ("raw", 3), ("comment", 2), ("around", 4), ("thm", 4), ("rawthm", 3)])
         data = {"v": "V", "w": ""}
         if mode == "alone":
             if s.endswith("\\"):
@@ -117,6 +117,20 @@ def generate(rng, n, tier="quick"):
             L, c, R = thm_left(r), thm_body(r), thm_right(r)
             tpl, exp = L + "{{!" + c + "}}" + R, comment_closed_form(L, R)
             s = L + "|" + c + "|" + R
+        elif mode == "rawthm":
+            # the family of the Lean theorem C03.raw_block_body_is_verbatim: L ++ {{{{raw}}}} b {{{{/raw}}}} ++ R for any text L ending in,
+            # any text R beginning with, a character that is neither blank nor a line break, and ANY body b without a
+            # backslash, without '{{{{' and not ending in '{' (tags, braces, whitespace at both ends, line breaks inside);
+            # the expectation is the theorem's closed form L ++ b ++ R
+            L = thm_left(r) + r.pick(["x", "]", ".", "\u00e9", "}", "\u00a0"])
+            R = r.pick(["y", "[", "\u4e2d", ")", "\u3000"]) + thm_right(r)
+            body = "".join(r.pick(list("ab{}\"' \t\r\n") + ["{{x}}", "{{#if a}}", "{{!c}}", "{{{y}}}", "\u00e9", "}}}}", "\n  ", "\r\n", " "]) for _ in range(r.range(0, 9)))
+            while "{{{{" in body:
+                body = body.replace("{{{{", "{{{ {")
+            if body.endswith("{"):
+                body += r.pick(["x", " ", "\n"])
+            tpl, exp = L + "{{{{raw}}}}" + body + "{{{{/raw}}}}" + R, L + body + R
+            s = L + "|" + body + "|" + R
         elif mode == "comment":
             # a comment in the middle of a line of text writes nothing (text on both sides, so the line is not standalone)
             if s.endswith("\\"):
@@ -142,6 +156,18 @@ def generate(rng, n, tier="quick"):
                 body += "x"
             tpl = "[{{{{raw}}}}" + body + "{{{{/raw}}}}]"
             exp = "[" + body + "]"
+        if mode in ("alone", "between", "thm", "comment") and r.chance(0.12):
+            # the same template read from a FILE (with and without dev mode): what is rendered is the file's content, every
+            # character of it – a byte order mark or a zero-width space in front included
+            if mode != "thm" and r.chance(0.7):
+                pre = r.pick(["\ufeff", "\ufeff", "\u200b", "\u2060"])
+                tpl, exp, s = pre + tpl, pre + exp, pre + s
+            ops = ([{"op": "set_dev", "reg": 0, "v": True}] if r.chance(0.5) else []) + [
+                {"op": "write_file", "file": "f0", "content": tpl}, {"op": "reg_file", "reg": 0, "name": "t", "file": "f0"},
+                {"op": "render", "reg": 0, "api": "render", "name": "t", "data": enc(data)}]
+            case = {"kind": "session", "regs": [{"escape": "html"}], "ops": ops, "id": "%s-%06d" % (ID, i)}
+            cases.append((case, {"mode": mode, "expect": exp, "s": s, "via": "file"}))
+            continue
         case = session({"escape": "html"}, [], {"api": "render_template", "src": tpl}, data)
         case["id"] = "%s-%06d" % (ID, i)
         cases.append((case, {"mode": mode, "expect": exp, "s": s}))
